@@ -132,6 +132,44 @@ struct Tracked
     static constexpr bool copyable = true;
 };
 
+// copyable, but not move-assignable (a deleted move assignment, no move constructor): a container has to
+// fall back to copies wherever it would move
+struct CaTracked
+{
+    int value = 0;
+    int origin = CONTAINER_DEFAULT;
+    bool moved_from = false;
+
+    CaTracked() : origin(reg().default_is_caller ? CALLER : CONTAINER_DEFAULT)
+    {
+        reg().born(this);
+    }
+    explicit CaTracked(int v) : value(v), origin(CALLER)
+    {
+        reg().tick_ctor();
+        reg().born(this);
+    }
+    CaTracked(const CaTracked& o) : value(o.value), origin(o.origin), moved_from(o.moved_from)
+    {
+        reg().tick(false);
+        reg().born(this);
+    }
+    CaTracked& operator=(const CaTracked& o)
+    {
+        reg().tick(false);
+        value = o.value;
+        origin = o.origin;
+        moved_from = o.moved_from;
+        return *this;
+    }
+    CaTracked& operator=(CaTracked&&) = delete;
+    ~CaTracked()
+    {
+        reg().died(this);
+    }
+    static constexpr bool copyable = true;
+};
+
 // copyable, and every special member is noexcept (no fault injection): containers that switch to
 // a different code path for nothrow-assignable elements take that path with this type
 struct NxTracked
